@@ -169,6 +169,16 @@ theorem read_write (tok : Ext K → List Char) (lexN : List Char → Option (Ext
   rw [lexLP_writeLP tok lexN lm wf]
   exact parseLP_linesLP tok lexN lm wf
 
+/-- The name hypothesis of `read_write` cannot be dropped: a variable called `free` (a legal rooc
+name) is exported verbatim — `obj: free`, `Bounds`, ` free free` — and the reader, whatever the
+number printer and lexer, cannot read the text back (known finding C17-keyword-names). -/
+theorem read_write_keyword_name_counterexample (tok : Ext Rat → List Char) (lexN : List Char → Option (Ext Rat)) :
+    let lm : LinModel (Ext Rat) :=
+      { optType := .min, objective := [.fin 1], offset := .fin 0, vars := ["free"],
+        domain := [⟨"free", .real .ninf .pinf, 1⟩], rows := [] }
+    nameOk "free" = false ∧ readLP lexN (writeLP tok lm) = none :=
+  ⟨by decide, by rfl⟩
+
 /-! non-vacuity of `read_write`: integer-valued numbers printed in decimal (`Lp.exTok`, `Lp.exLex` in
 `Rooc/Proofs/LpWitness.lean`), over ℚ with the same `ExactField` instance the theorems use -/
 attribute [local instance 10000] fieldExact
